@@ -854,9 +854,12 @@ class FMMetrics(Metrics):  # pylint: disable=too-many-instance-attributes
             raise FlamaException("Feature model is not defined.")
 
         name = "Features in constraints"
-        _features_in_constraints = list(
-            {f for ctc in self.model.get_constraints() for f in ctc.get_features()}
-        )
+        # only names of features: a constraint may also mention attributes (A.x) or literals
+        # (in order of first appearance, so that the listing does not depend on the hash seed)
+        _features_in_constraints = list(dict.fromkeys(
+            f for ctc in self.model.get_constraints() for f in ctc.get_features()
+            if f in self._features_by_name
+        ))
         result = self.construct_result(
             name=name,
             doc=self.extra_constraint_representativeness.__doc__,
